@@ -532,10 +532,42 @@ func rulesC10(c *Ctx) {
 	} else {
 		bc := blockCalls[0]
 		bad := ""
+		// a private helper that reads a table counts as a read at its call
+		rmemo := map[*ssa.Function]string{}
+		var readsTable func(g *ssa.Function, d int) string
+		readsTable = func(g *ssa.Function, d int) string {
+			if g == nil || g.Blocks == nil || d > 3 || g == block {
+				return ""
+			}
+			if r, ok := rmemo[g]; ok {
+				return r
+			}
+			rmemo[g] = ""
+			found := ""
+			eachInstr(g, func(_ *ssa.BasicBlock, _ int, in ssa.Instruction) {
+				if u, ok := in.(*ssa.UnOp); ok {
+					if n, _ := fieldLoadName(u); tables[n] {
+						found = n
+					}
+				}
+			})
+			for _, ci := range Calls(g) {
+				if found == "" && ci.Static != nil && ci.Static.Pkg == g.Pkg && ci.Kind == "call" {
+					found = readsTable(ci.Static, d+1)
+				}
+			}
+			rmemo[g] = found
+			return found
+		}
 		eachInstr(get, func(_ *ssa.BasicBlock, _ int, in ssa.Instruction) {
 			if u, ok := in.(*ssa.UnOp); ok {
 				if n, _ := fieldLoadName(u); tables[n] && !dominates(bc.Instr, in) {
 					bad = "table " + n + " is read at " + c.pos(in.Pos()) + " on a path that has not called Block"
+				}
+			}
+			if ci := callInfo(in, nil, 0); ci != nil && ci.Static != nil && ci.Static.Pkg == get.Pkg && ci.Static != block && ci.Kind == "call" && in != bc.Instr && !dominates(bc.Instr, in) {
+				if n := readsTable(ci.Static, 0); n != "" {
+					bad = "table " + n + " is read (in " + fname(ci.Static) + ", called at " + c.pos(in.Pos()) + ") on a path that has not called Block"
 				}
 			}
 		})
@@ -761,6 +793,102 @@ func rulesC10(c *Ctx) {
 
 	// ---- R9 the library registers its built-ins in the default slots only -------------------------------
 	ruleBuiltinsAreDefaults(c)
+
+	// ---- R10 a failed resolution leaves no trace: Get writes provider state only on the way to success ----
+	{
+		wmemo := map[*ssa.Function]int{}
+		isStateWrite := func(in ssa.Instruction) bool {
+			var target ssa.Value
+			switch x := in.(type) {
+			case *ssa.MapUpdate:
+				target = x.Map
+			case *ssa.Store:
+				target = x.Addr
+			case *ssa.Call:
+				if b, ok := x.Call.Value.(*ssa.Builtin); ok && b.Name() == "delete" && len(x.Call.Args) > 0 {
+					target = x.Call.Args[0]
+				}
+			}
+			if target == nil {
+				return false
+			}
+			root, path := fieldPathOf(target)
+			if len(path) == 0 || path[0] == ro.stack || path[0] == ro.blocked {
+				return false
+			}
+			pt, ok := root.Type().(*types.Pointer)
+			if !ok {
+				return false
+			}
+			nt, ok := pt.Elem().(*types.Named)
+			if !ok || nt != prov {
+				return false
+			}
+			_, fresh := root.(*ssa.Alloc)
+			return !fresh
+		}
+		var writes func(g *ssa.Function, d int) bool
+		writes = func(g *ssa.Function, d int) bool {
+			if g == nil || g.Blocks == nil || d > 3 || g == block {
+				return false
+			}
+			if r, ok := wmemo[g]; ok {
+				return r == 1
+			}
+			wmemo[g] = 2
+			found := false
+			eachInstr(g, func(_ *ssa.BasicBlock, _ int, in ssa.Instruction) {
+				if isStateWrite(in) {
+					found = true
+				}
+			})
+			for _, ci := range Calls(g) {
+				if !found && ci.Static != nil && ci.Static.Pkg == g.Pkg && ci.Kind == "call" && writes(ci.Static, d+1) {
+					found = true
+				}
+			}
+			if found {
+				wmemo[g] = 1
+			}
+			return found
+		}
+		n10 := 0
+		for _, g := range getGroupList {
+			g := g
+			ei := errResultIndex(g.Signature)
+			if ei < 0 {
+				continue
+			}
+			gfacts := factsFor(g)
+			eachInstr(g, func(_ *ssa.BasicBlock, _ int, in ssa.Instruction) {
+				w := isStateWrite(in)
+				if !w {
+					if ci := callInfo(in, nil, 0); ci != nil && ci.Static != nil && ci.Static.Pkg == g.Pkg && ci.Kind == "call" && !getGroup[ci.Static] && writes(ci.Static, 0) {
+						w = true
+					}
+				}
+				if !w {
+					return
+				}
+				n10++
+				bad := ""
+				for _, e := range RunPaths(g, in, 0, func(st int, _ ssa.Instruction, _ bool) int { return st }, false, nil) {
+					r, isRet := e.Instr.(*ssa.Return)
+					if !isRet {
+						continue
+					}
+					ev := resolve(r.Results[ei])
+					if isNilConst(ev) || gfacts.KnownNil(r.Block(), ev, true) {
+						continue
+					}
+					bad = c.pos(r.Pos())
+				}
+				c.Check(bad == "", "R10", fmt.Sprintf("provider state write #%d in %s", n10, fname(g)), in.Pos(), "only on the way to a successful return",
+					"after this write the failing return at "+bad+" is reachable — a failed resolution leaves state behind (a negative cache, a half-registered instance) and changes what a later, independent Get answers")
+			})
+		}
+		c.Floor("R10", n10, 2)
+	}
 
 	// ---- R8 the cycle scan covers the whole stack ------------------------------------------------------
 	isCalled := ro.scan
